@@ -8,6 +8,27 @@ import sys
 VERIF = os.path.dirname(os.path.dirname(os.path.abspath(__file__)))
 sys.path.insert(0, VERIF)
 
+TECHNIQUE = {
+ "C01": "static analysis: exhaustive comparison of the compiler-evaluated byte table + 2-adic/linear normal forms of mask/shift + slot rules on enumerated structured paths of next()",
+ "C02": "static analysis: finite-table inversion check (decode arms, complement constant) + symbolic straight-line composition of the codec loop bodies",
+ "C03": "static analysis: construction-shape rules (set->sort->enumerate), constructor coherence, sibling header builders, canonical-min use sites",
+ "C04": "static analysis: slot agreement of the three accumulation loops (sibling cross-check) + format-template decoding",
+ "C05": "static analysis: lock-held take (receiver typing), ordinal term composition, offset polynomial identity, rayon pipeline typing, push/flush typestate on structured paths",
+ "C06": "static analysis: who-may-construct decoder rule, suffix-table comparison, resolved accessor callees, sibling agreement of stats pass and iterator",
+ "C07": "static analysis: atomic-entry idiom table, take-then-count path typestate, writer/reader template and role agreement, routing-term identity",
+ "C08": "static analysis: bin-term matching, counter hand-over rules, writer/loader template agreement, flush typestate, duplicated-block agreement",
+ "C09": "static analysis: path-wise symbolic composition of the minimiser state machine (sentinel typestate, run closure, reset completeness, guard operators, coordinates)",
+ "C10": "static analysis: one-write-per-record path rule under the writer guard, inversion tuple agreement, sibling agreement of iterator construction, window-clamp rule",
+ "C11": "static analysis: exhaustive corner-table comparison + symbolic midpoint term per path in three sibling loops + rejection-edge rule",
+ "C12": "static analysis: rank-ordered zip rule, accumulation-family membership, per-k-mer marker restart, corner table of this copy",
+ "C13": "static analysis: sibling agreement binding vs core (slot families), delegation by resolved callee, ownership rules around the transmute, pipeline typing, registration exhaustiveness",
+ "C14": "static analysis: unchecked-index provenance table + who-may-write invariant fields + polynomial identity mapped size == row length + compile_fail witnesses",
+ "C15": "static analysis: clap range table read from the derive expansion, preset tables, option->setter flow table with polarity (by effect), refusal-before-output on the call graph",
+ "C16": "static analysis: sibling rules for the structural causes of failure on degenerate input (sniff guard, tail-flush condition, window clamp, sentinel typestate, normaliser guard, exhaustion-first)",
+ "C17": "static analysis: who-may-open-for-write enumeration (truncation), set_len-before-map, grid-only chunk reads, no directory listing (zero-site rule with positive control)",
+ "C18": "static analysis: equivalence of two state machines as equality of projected symbolic path signatures + non-interference + k-list carrying rule",
+}
+
 PENDING_REASON = ("static rule set for this property is designed (DESIGN.md §4) but not built yet in this "
                   "round; not claimed until its check exists")
 
@@ -37,7 +58,7 @@ for i in range(1, 19):
         "level_note": getattr(mod, "LEVEL_NOTE", "Trusted: rustc nightly front end (HIR/typeck/const-eval), "
                               "cargo build plan, documented semantics of third-party crates, spec tables "
                               "transcribed from properties.jsonl. " + " ".join(getattr(mod, "ASSUMPTIONS", []))),
-        "technique": getattr(mod, "TECHNIQUE", "static analysis: custom rules over typed HIR facts"),
+        "technique": getattr(mod, "TECHNIQUE", TECHNIQUE.get(pid, "static analysis: custom rules over typed HIR facts")),
     })
 
 m = {
